@@ -19,7 +19,8 @@ open TallyVerif.Csv
 
 /-- No row raises an exception that the per-row `except (ValueError, IndexError)` lets through
 (`KeyError` from a template naming a column that is not captured, `AttributeError` from a hand-built
-`FormatSpec` without captures/template).  `parse_format_string` rules these out; see `noFatal_simple`. -/
+`FormatSpec` without captures/template, `re.error` from a date format with a repeated directive).  `parse_format_string`
+rules the first two out, `DateFormatOk` the third; see `noFatal_simple`. -/
 def NoFatal (o : Oracles) (cfg : Cfg) (rows : List (List Str)) : Prop :=
   ∀ r ∈ rows, rowFatal o cfg r = false
 
@@ -35,8 +36,16 @@ theorem parseFile_fatal (o : Oracles) (cfg : Cfg) (pre : List (List Str)) (r : L
     parseFile o cfg (pre ++ r :: post) = .error e :=
   foldl_step_fatal o cfg pre r post hpre e he hf
 
-/-- an exception that escapes the per-row `except` can only come from building the description -/
-private theorem fatal_only_from_describe (o : Oracles) (cfg : Cfg) (r : List Str) (e : Err)
+/-- The date format is one `datetime.strptime` can work with: whatever the text, the call returns a date or raises
+`ValueError` (caught per row) - never `re.error` (a format that uses the same directive twice: *redefinition of group name*,
+which the per-row `except (ValueError, IndexError)` does NOT catch).  For the model of `strptime` this is
+`compile fmt = .ok _` (`dateFormatOk_of_compile` below); `dup_directive_aborts_file` is the excluded case. -/
+def DateFormatOk (o : Oracles) (cfg : Cfg) : Prop :=
+  ∀ tok e, o.strptime cfg.spec.dateFormat tok = .error e → e = .valueError
+
+/-- an exception that escapes the per-row `except` can only come from building the description (given a date format
+that compiles) -/
+private theorem fatal_only_from_describe (o : Oracles) (cfg : Cfg) (hdf : DateFormatOk o cfg) (r : List Str) (e : Err)
     (h : parseRow o cfg r = .error e) (hf : e.fatal = true) : describe cfg.spec r = .error e := by
   unfold parseRow at h
   dsimp only at h
@@ -49,7 +58,10 @@ private theorem fatal_only_from_describe (o : Oracles) (cfg : Cfg) (r : List Str
       · split at h
         · cases h; simp [Err.fatal] at hf
         · split at h
-          · cases h; simp [Err.fatal] at hf
+          · rename_i e' he'
+            cases h
+            rw [hdf _ _ he'] at hf
+            simp [Err.fatal, DateErr.toErr] at hf
           · split at h
             · cases h; simp [Err.fatal] at hf
             · split at h
@@ -59,7 +71,7 @@ private theorem fatal_only_from_describe (o : Oracles) (cfg : Cfg) (r : List Str
                 · cases h
 
 /-- With `{description}` in the format (mode 1) no row can raise anything but what is caught. -/
-theorem noFatal_simple (o : Oracles) (cfg : Cfg) (rows : List (List Str)) (dc : Nat)
+theorem noFatal_simple (o : Oracles) (cfg : Cfg) (hdf : DateFormatOk o cfg) (rows : List (List Str)) (dc : Nat)
     (hm : cfg.spec.descCol = some dc) : NoFatal o cfg rows := by
   intro r _
   unfold rowFatal
@@ -69,13 +81,13 @@ theorem noFatal_simple (o : Oracles) (cfg : Cfg) (rows : List (List Str)) (dc : 
     cases hf : e.fatal with
     | false => exact hf
     | true =>
-      have := fatal_only_from_describe o cfg r e hp hf
+      have := fatal_only_from_describe o cfg hdf r e hp hf
       simp [describe, hm] at this
 
 /-- Mode 2 with a template that is literal text and `{name}` references to captured columns (what
 `parse_format_string` accepts; `renderSegs` doubles literal braces): no row can raise anything but what is caught. -/
-theorem noFatal_template (o : Oracles) (cfg : Cfg) (rows : List (List Str)) (cc : List (Str × Nat)) (segs : List Seg)
-    (hm : cfg.spec.descCol = none) (hcc : cfg.spec.customCaptures = some cc)
+theorem noFatal_template (o : Oracles) (cfg : Cfg) (hdf : DateFormatOk o cfg) (rows : List (List Str)) (cc : List (Str × Nat))
+    (segs : List Seg) (hm : cfg.spec.descCol = none) (hcc : cfg.spec.customCaptures = some cc)
     (htpl : cfg.spec.template = some (renderSegs segs)) (hrefs : refsOk (cc.map (·.1)) segs = true) :
     NoFatal o cfg rows := by
   intro r _
@@ -86,7 +98,7 @@ theorem noFatal_template (o : Oracles) (cfg : Cfg) (rows : List (List Str)) (cc 
     cases hf : e.fatal with
     | false => exact hf
     | true =>
-      have := fatal_only_from_describe o cfg r e hp hf
+      have := fatal_only_from_describe o cfg hdf r e hp hf
       simp [describe, hm, hcc, htpl, formatTemplate, fmtScan_segs _ _ _ (segsOk_of_refsOk r cc segs hrefs)] at this
 
 /-- Reading two tables one after the other = reading their concatenation. -/
@@ -143,7 +155,7 @@ theorem accept_iff (o : Oracles) (cfg : Cfg) (row : List Str) (hfix : cfg.skipNo
     (∃ t, parseRow o cfg row = .ok t) ↔
       maxCol cfg.spec < row.length ∧
       (∃ tok dt, (cell row cfg.spec.dateCol).isEmpty = false ∧
-          dateToken cfg.spec (cell row cfg.spec.dateCol) = some tok ∧ o.strptime cfg.spec.dateFormat tok = some dt) ∧
+          dateToken cfg.spec (cell row cfg.spec.dateCol) = some tok ∧ o.strptime cfg.spec.dateFormat tok = .ok dt) ∧
       (∃ desc caps, describe cfg.spec row = .ok (desc, caps) ∧ desc.isEmpty = false) ∧
       (∃ q, (cell row cfg.spec.amountCol).isEmpty = false ∧ rawAmount o cfg row = some q ∧
           q.isFinite = true ∧ q.isZero = false) := by
@@ -177,7 +189,7 @@ def errOf : Except Err Txn → Option Err
 def d5Oracle : Oracles where
   pyFloat s := if s = ['n', 'a', 'n'] then some ⟨false, 0x7ff8000000000000⟩
     else if s = ['1', '2', '.', '5'] then some ⟨false, 0x4029000000000000⟩ else none
-  strptime _ tok := if tok = ['0', '1', '/', '1', '5', '/', '2', '0', '2', '5'] then some ['o', 'k'] else none
+  strptime _ tok := if tok = ['0', '1', '/', '1', '5', '/', '2', '0', '2', '5'] then .ok ['o', 'k'] else .error .valueError
 
 def d5Spec : Spec := { dateCol := 0, dateFormat := ['%', 'm', '/', '%', 'd', '/', '%', 'Y'], amountCol := 2, descCol := some 1 }
 def d5Row : List Str := [['0', '1', '/', '1', '5', '/', '2', '0', '2', '5'], ['C', 'O', 'F', 'F', 'E', 'E'], ['n', 'a', 'n']]
@@ -216,7 +228,7 @@ theorem fidelity (o : Oracles) (cfg : Cfg) (row : List Str) (t : Txn) (h : parse
     ∃ desc caps tok,
       describe cfg.spec row = .ok (desc, caps) ∧ t.rawDescription = desc ∧
       t.field = (if caps.isEmpty then none else some caps) ∧
-      dateToken cfg.spec (cell row cfg.spec.dateCol) = some tok ∧ o.strptime cfg.spec.dateFormat tok = some t.date ∧
+      dateToken cfg.spec (cell row cfg.spec.dateCol) = some tok ∧ o.strptime cfg.spec.dateFormat tok = .ok t.date ∧
       t.source = sourceOf cfg ∧ t.isCredit = t.amount.ltZero ∧ t.location = locationOf cfg.spec row desc := by
   obtain ⟨-, desc, caps, tok, dt, q, hd, -, -, -, htok, hdt, -, -, -, rfl⟩ := (parseRow_ok_iff o cfg row t).mp h
   exact ⟨desc, caps, tok, hd, rfl, rfl, htok, hdt, rfl, rfl, rfl⟩
